@@ -386,7 +386,8 @@ def family_task(seqs):
 GS_FILTERS = [('siteRef->area == 10', ('cmp', '==', ('siteRef', 'area'), N.num(10.0))),
               ('siteRef->area', ('has', ('siteRef', 'area'))),
               ('siteRef->area == 20 or area == 30', ('or', ('cmp', '==', ('siteRef', 'area'), N.num(20.0)), ('cmp', '==', ('area',), N.num(30.0))))]
-GS_EVENTS = ['F0', 'F1', 'F2', 'replace-target-row', 'replace-source-row', 'delete-and-append', 'mutate-row-in-place', 'other-grid', 'drop-target-tag']
+GS_EVENTS = ['F0', 'F1', 'F2', 'replace-target-row', 'replace-source-row', 'delete-and-append', 'mutate-row-in-place', 'other-grid', 'drop-target-tag',
+             'append-rows']
 
 
 def _gs_rows(variant=0):
@@ -462,6 +463,13 @@ def gridstate_task(seqs):
                     continue
                 rows[i] = {k: v for k, v in rows[i].items() if k != 'area'}
                 del g[i]['area']
+            elif ev == 'append-rows':
+                # the grid grows: a new target and a new row that refers to it
+                if any(r['id'][1] == 's3' for r in rows) or len(rows) > 5:
+                    continue
+                for new in ({'id': ('ref', 's3', 'Site 3'), 'area': N.num(10.0)}, {'id': ('ref', 'e2', 'Equip 2'), 'siteRef': ('ref', 's3', None)}):
+                    rows.append(new)
+                    g.append({k: O.build(v, hs) for k, v in new.items()})
             elif ev == 'other-grid':
                 # the grid in use is dropped and another one of the same size takes its place (possibly at the same address)
                 variant = 1 if rows[0]['siteRef'][1] == 's1' else 0
@@ -577,7 +585,7 @@ def run(ctx):
         'stats': st, 'exhaustive': True,
         'rule': 'schedules: every interleaving (scheduling point = every source line of the non-lambda functions of hszinc/grid_filter.py and of '
                 'Grid.filter) of the listed thread plans with at most preemption_bound preemptions, each followed by a sequential post-phase; '
-                'histories: every request sequence of length <= %d over 4 filters with cache capacity 1 and 2; every ordered pair of 26 near-colliding or unit-sensitive filters (same text up to the kind of the literal, blanks or parentheses) from a clean state; every history of length <= %d over 3 reference-following filters and 6 data changes (row replaced, mutated in place, deleted and re-appended, tag dropped, grid swapped for another of the same size) ending in an evaluation; plus individual long histories around '
+                'histories: every request sequence of length <= %d over 4 filters with cache capacity 1 and 2; every ordered pair of 26 near-colliding or unit-sensitive filters (same text up to the kind of the literal, blanks or parentheses) from a clean state; every history of length <= %d over 3 reference-following filters and 7 data changes (row replaced, mutated in place, deleted and re-appended, tag dropped, rows appended, grid swapped for another of the same size) ending in an evaluation; plus individual long histories around '
                 'the real capacity (reported as individual runs, not exhaustive); evaluations = complete executions of the real code; distinct = '
                 'distinct (plan, capacity, schedule) or request sequence; non-trivial = at least one non-default scheduling choice / two different filters' % (L, GL),
         'coverage': {'bounds': {'schedule_plans': bounds, 'history_length': L, 'history_capacities': [1, 2], 'long_histories': longs, 'data_history_length': GL, 'data_histories': len(gs), 'data_events': GS_EVENTS},
